@@ -140,7 +140,7 @@ def run_tables(ch):
     variant = ch.pick('name_pool', ['mixed', 'empties', 'all_distinct', 'all_same'])
     shndx_probe = ch.pick('probe.st_shndx', [1, 0, 0xfff1, 0xfff2, 0xff00, 0xffff])
     val_probe = ch.pick('probe.st_value', [None, 0, 1, f.mask])
-    size_probe = ch.pick('probe.st_size', [None, 0, 1, f.mask if cls == 64 else 0xffffffff])
+    size_probe = ch.pick('probe.st_size', [None, 0, 1, f.mask if cls == 64 else 0xffffffff, 99999, 100000, 250000, 999999, 1000000])
     strtab_lead = ch.pick('strtab.sharing', ['shared', 'unshared', 'suffix'])
     with_shndx_tab = ch.pick('symtab_shndx', [False, True]) or shndx_probe == 0xffff
     with_syminfo = ch.pick('syminfo', [False, True])
